@@ -8,6 +8,7 @@ import (
 	"sort"
 	"strings"
 	"sync"
+	"sync/atomic"
 
 	"verif/core"
 	"verif/ref"
@@ -16,6 +17,8 @@ import (
 
 // C10 — gxz never loses data: every file-system call of a run is a crash point
 // and a fault point (ptrace stepping of the unmodified binary).
+
+var c10Hangs int32
 
 type c10File struct {
 	Name    string
@@ -396,6 +399,7 @@ func (e *c10Env) judge(r *core.Run, s C10Scn, c C10Case, rec []sysx.Call) {
 		desc += fmt.Sprintf(" fails with %s (forever=%v)", c10Errname(c.Errno), c.Forever)
 	}
 	if res.TimedOut {
+		atomic.AddInt32(&c10Hangs, 1)
 		r.Violate(cs, site+" → hang@"+phase, desc, "no exit within 20 s", "termination")
 		return
 	}
@@ -492,7 +496,14 @@ func (e *c10Env) judge(r *core.Run, s C10Scn, c C10Case, rec []sysx.Call) {
 					r.Violate(cs, site+" → exit0-despite-persistently-failing-read("+c10Role(s, rec[c.K])+")", desc, observed, "non-zero exit status")
 				}
 			case "write", "close", "rename", "unlink", "open":
-				// a stat of the target that fails is legitimately ignored with -f; everything else must surface
+				// a stat of the target that fails is legitimately ignored with -f; a failing call on
+				// something that is neither the input, the target nor the temporary file (e.g. a
+				// best-effort sync of the directory after the output is in place) may be ignored as
+				// well: the completeness of the result is checked above. Everything else must surface.
+				if role := c10Role(s, rec[c.K]); role == "other" || role == "" {
+					r.Count("ignored_fault_on_unrelated_path", 1)
+					break
+				}
 				r.Violate(cs, site+" → exit0-despite-failing-"+rec[c.K].Kind()+"("+c10Role(s, rec[c.K])+")", desc, observed, "non-zero exit status")
 				outcome = "fault-masked"
 			}
@@ -632,7 +643,7 @@ func runC10(r *core.Run) {
 				}
 			}
 		}
-		if th {
+		if th || true { // both tiers: SIGINT before every call and all pairs of faults (about 15 s)
 			for k := 0; k <= n; k++ {
 				js = append(js, job{s, C10Case{Scenario: s.Name, Mode: "signal", K: k, Sig: 2}, rec1.Calls})
 			}
@@ -664,6 +675,11 @@ func runC10(r *core.Run) {
 	r.Extra("traced_runs", len(jobs)+2*len(scns))
 	r.Sample(map[string]interface{}{"case": "d-xz-big: kill before call 9 (rename temp→target)"})
 	r.Parallel(len(jobs), "crash and fault points", func(i int) {
+		if atomic.LoadInt32(&c10Hangs) >= 3 {
+			// every hanging run costs the 20 s time-out: three reported hangs are enough
+			r.CapHit("enumeration cut short after three runs that did not terminate (reported as violations)")
+			return
+		}
 		j := jobs[i]
 		env.judge(r, j.s, j.c, j.rec)
 	})
